@@ -117,6 +117,10 @@ func (e editor) clearOnDifferentChoiceCase(existing *Selection, want meta.Meta) 
 		return nil
 	}
 	choice := wantCase.Parent().(*meta.Choice)
+	// the choice may itself be inside a case of an enclosing choice
+	if err := e.clearOnDifferentChoiceCase(existing, choice); err != nil {
+		return err
+	}
 	existingCase, err := existing.Node.Choose(existing, choice)
 	if err != nil {
 		// we're eating the error here because destination may not implement choose because
